@@ -1086,10 +1086,11 @@ class Frame:
                 return last
             t = self.truthy(last)
             taken = c.branch(t)
+            # Python returns the deciding operand itself; for a Boolean operand that is the constant decided on this path
             if isand and not taken:
-                return last if not sym.is_bool(t) or isinstance(last, bool) else False
+                return False if (sym.is_bool(last) and not isinstance(last, bool)) else last
             if (not isand) and taken:
-                return last if not sym.is_bool(t) or isinstance(last, bool) else True
+                return True if (sym.is_bool(last) and not isinstance(last, bool)) else last
         return last
 
     def e_UnaryOp(self, e):
@@ -1844,6 +1845,10 @@ def builtin_call(fr: Frame, name, args, kwargs):
     if name == "set":
         if args and isinstance(args[0], Arr):
             return SetOf(args[0])
+        if args and isinstance(args[0], (Seq, list, tuple)) and not (isinstance(args[0], (list, tuple)) and not args[0]):
+            a0 = N.asarray(args[0])
+            if a0.ndim == 1 and a0.kind in ("int", "float", "bool"):
+                return SetOf(a0)       # membership view of a list of numbers
         raise Unsupported("set() of a non-array")
     raise Unsupported(f"builtin {name}")
 
